@@ -216,22 +216,40 @@ pub fn op(st: &mut ChunkSt, toks: &[&str]) -> Option<String> {
             let mut in_force = 128usize;
             if prev != 0 {
                 match ser.set_max_chunk_size(prev as u32, RtmpTimestamp::new(0)) { Ok(p) => wire.extend_from_slice(&p.bytes), Err(_) => return Some("! FAIL valid-size-refused-by-serializer".into()) }
-                if des.set_max_chunk_size(prev).is_err() { return Some("! FAIL valid-size-refused-by-deserializer".into()); }
-                wire.clear();   // the deserializer was told directly
-                in_force = prev;
+                in_force = prev;    // the deserializer learns it from the announcement itself, first on the wire
             }
             if bad <= u32::MAX as u64 && ser.set_max_chunk_size(bad as u32, RtmpTimestamp::new(0)).is_ok() { return Some("! FAIL invalid-size-accepted-by-serializer".into()); }
+            let skip = if prev != 0 { 1 } else { 0 };
+            if skip == 1 { let mut first = vec![]; if let Err(e) = feed_one(&mut des, &wire, &mut first) { return Some(format!("! FAIL announcement-not-read {}", e)); } }
             if des.set_max_chunk_size(bad as usize).is_ok() { return Some("! FAIL invalid-size-accepted-by-deserializer".into()); }
             if des.get_max_chunk_size() != in_force { return Some(format!("! FAIL refused-size-{}-honoured: deserializer reports {} instead of {}", bad, des.get_max_chunk_size(), in_force)); }
-            let msgs: Vec<MessagePayload> = (0..3).map(|i| MessagePayload { timestamp: RtmpTimestamp::new(10 * i), type_id: 9, message_stream_id: 1, data: Bytes::from((0..len + i as usize).map(|j| (j * 7 + i as usize) as u8).collect::<Vec<u8>>()) }).collect();
+            // video on its own chunk stream, and protocol-control messages on chunk stream 2 / message stream 0 - the stream a
+            // chunk-size announcement would have used: a refused call must leave no trace in the header history either
+            let mut msgs: Vec<MessagePayload> = (0..3).map(|i| MessagePayload { timestamp: RtmpTimestamp::new(10 * i), type_id: 9, message_stream_id: 1, data: Bytes::from((0..len + i as usize).map(|j| (j * 7 + i as usize) as u8).collect::<Vec<u8>>()) }).collect();
+            msgs.insert(0, MessagePayload { timestamp: RtmpTimestamp::new(30), type_id: 3, message_stream_id: 0, data: Bytes::from(vec![0u8, 0, 1, 0]) });
+            msgs.push(MessagePayload { timestamp: RtmpTimestamp::new(45), type_id: 3, message_stream_id: 0, data: Bytes::from(vec![0u8, 0, 2, 0]) });
+            let announce_len = wire.len();
             for m in &msgs { match ser.serialize(m, false, false) { Ok(p) => wire.extend_from_slice(&p.bytes), Err(_) => return Some("! FAIL serializer-fails-after-refusal".into()) } }
             // every chunk boundary must be where the size in force puts it: read with the independent decoder too
             let mut got = vec![];
-            if let Err(e) = feed_one(&mut des, &wire, &mut got) { return Some(format!("! FAIL after refusing chunk size {} the deserializer fails on a stream chunked at {}: {}", bad, in_force, e)); }
-            if got.len() != 3 || got.iter().zip(msgs.iter()).any(|(g, m)| g.data[..] != m.data[..] || g.typ != 9) { return Some(format!("! FAIL after refusing chunk size {} messages chunked at {} are not read back ({} of 3)", bad, in_force, got.len())); }
+            if let Err(e) = feed_one(&mut des, &wire[announce_len..], &mut got) { return Some(format!("! FAIL after refusing chunk size {} the deserializer fails on a stream chunked at {}: {}", bad, in_force, e)); }
+            if got.len() != msgs.len() || got.iter().zip(msgs.iter()).any(|(g, m)| g.data[..] != m.data[..] || g.typ != m.type_id || g.ts != m.timestamp.value || g.msid != m.message_stream_id) { return Some(format!("! FAIL after refusing chunk size {} messages chunked at {} are not read back as sent ({} of {})", bad, in_force, got.len(), msgs.len())); }
             let mut rd = RefDecoder::new(false);
-            rd.cs = in_force;
-            match rd.decode_all(&wire) { Ok(ms) if ms.len() == 3 => "! ok".into(), _ => format!("! FAIL after refusing chunk size {} the serializer no longer chunks at {}", bad, in_force) }
+            match rd.decode_all(&wire) {
+                Ok(ms) if ms.len() == msgs.len() + skip && ms[skip..].iter().zip(msgs.iter()).all(|(g, m)| g.data[..] == m.data[..] && g.typ == m.type_id && g.ts == m.timestamp.value && g.msid == m.message_stream_id) => "! ok".into(),
+                _ => format!("! FAIL after refusing chunk size {} the serializer's stream (chunked at {}) is not read by the specification decoder as the messages sent", bad, in_force) }
+        }
+        // C19 / C03: a header announcing fewer bytes than the message under way already holds must be refused with
+        // InvalidMessageLength - not accepted silently (after which nothing would ever complete again)
+        ["!des.shorter", held, announced, data] => {
+            let data = parse_bytes(data)?;
+            let mut des = ChunkDeserializer::new();
+            let mut got = vec![];
+            match feed_one(&mut des, &data, &mut got) {
+                Err(e) if e == "err:len" => "! ok".into(),
+                Err(e) => format!("! FAIL header-announcing-{}-bytes-with-{}-held-refused-with-another-error {}", announced, held, e),
+                Ok(()) => format!("! FAIL header-announcing-{}-bytes-with-{}-held-accepted-silently ({} message(s) returned)", announced, held, got.len()),
+            }
         }
         ["!chunk.nonempty"] => {
             match st.packets.iter().position(|p| p.bytes.is_empty()) { Some(i) => format!("! FAIL empty-packet for message {}", show_msg(&st.sent[i])), None => "! ok".into() }
